@@ -468,13 +468,51 @@ def path_truth(f, path, decs, tree):
 
 # ---------------------------------------------------------------- manual counting loops
 
+def _single_def(f, l):
+    ds = [d for d in f._defs() if d[0] == l]
+    if len(ds) == 1 and not ds[0][3] and ds[0][2] != 'T':
+        return f.stmts(ds[0][1])[ds[0][2]]
+    return None
+
+
+def _chase_local(f, op):
+    """follow copies of single-definition temporaries; returns the local finally read (or None)"""
+    for _ in range(10):
+        if not (op['k'] in ('copy', 'move') and not op['p']['pr']):
+            return None
+        l = op['p']['l']
+        st = _single_def(f, l)
+        if st is None or st['r']['k'] != 'use':
+            return l
+        op = st['r']['o']
+    return None
+
+
+def _chase(f, r):
+    """follow `use` copies (and `.0` of a checked-arithmetic tuple) of single-definition temporaries to the defining rvalue"""
+    for _ in range(10):
+        if r['k'] != 'use':
+            return r
+        op = r['o']
+        if op['k'] not in ('copy', 'move'):
+            return None
+        pr = op['p']['pr']
+        if pr and not (len(pr) == 1 and pr[0]['k'] == 'field' and pr[0]['i'] == 0):
+            return None
+        st = _single_def(f, op['p']['l'])
+        if st is None:
+            return None
+        r = st['r']
+    return None
+
+
 def counting_loops(f):
-    """`while` loops driven by an integer induction variable: list of dicts
-         var (local), init (tree), step (+1/-1), stay (op, bound tree): condition under which the body runs, written `var op bound`,
-         header, exits_only_at_guard (no break/return inside the body)"""
+    """`while` loops driven by an integer induction variable (decided on the MIR statements, independent of expression caches):
+       list of dicts: var (local), name, init (tree), step (+1/-1), stay (op, bound tree) = condition `var op bound` under which
+       the body runs, header, body, guard_block, exits_only_at_guard (no break/return inside the body)"""
     out = []
+    CM = {'Lt': 'lt', 'Le': 'le', 'Gt': 'gt', 'Ge': 'ge', 'Ne': 'ne', 'Eq': 'eq'}
     for h, body in f.loops().items():
-        # the guard: a switch in the loop with one edge leaving it
         guards = []
         other_exit = False
         for u in sorted(body):
@@ -482,26 +520,32 @@ def counting_loops(f):
             outs = [v for v in f.succs(u) if v not in body]
             if not outs:
                 continue
-            if t['k'] == 'switch' and len(outs) == 1:
+            live_outs = [v for v in outs if v in f.can_reach_return()]
+            if t['k'] == 'switch' and len(live_outs) == 1 and len(outs) == 1:
                 guards.append((u, outs[0]))
-            else:
-                # leaving towards a diverging block (panic) is not an exit of the iteration
-                if not all(v not in f.can_reach_return() for v in outs):
-                    other_exit = True
-        guards = [(u, o) for (u, o) in guards if o in f.can_reach_return()]
+            elif live_outs:
+                other_exit = True
         if len(guards) != 1:
             continue
         gu, gexit = guards[0]
-        stay = [v for v in f.succs(gu) if v in body]
-        if len(stay) != 1:
+        t = f.term(gu)
+        cond = _chase(f, {'k': 'use', 'o': t['d']})
+        if cond is None or cond['k'] != 'binop' or cond['op'] not in CM:
             continue
-        atoms = [a for (sb, a) in f.guard_atoms(stay[0]) if sb == gu]
-        if not atoms or atoms[0][0] != 'cmp':
+        # which truth value stays in the loop?
+        stay_vals = [v for v, tg in t['vals'] if tg in body]
+        stay_truth = (t['otherwise'] in body) if not stay_vals else (stay_vals[0] != 0)
+        if t['otherwise'] in body and stay_vals:
             continue
-        _, op, l, r = atoms[0]
+        op = CM[cond['op']]
+        if not stay_truth:
+            op = NEG[op]
+        la, lb = _chase_local(f, cond['a']), _chase_local(f, cond['b'])
         defs = f._defs()
         for v in range(f.argc + 1, len(f.locals)):
             if f.local_ty(v) not in ('usize', 'u32', 'u64', 'isize', 'i32', 'i64'):
+                continue
+            if (la == v) == (lb == v):
                 continue
             dv = [d for d in defs if d[0] == v and not d[3]]
             inside = [d for d in dv if d[1] in body]
@@ -509,26 +553,50 @@ def counting_loops(f):
             if len(inside) != 1 or len(outside) != 1 or inside[0][2] == 'T' or outside[0][2] == 'T':
                 continue
             ub, ui = inside[0][1], inside[0][2]
-            upd = peel(f.expr_rvalue(f.stmts(ub)[ui]['r'], ub, ui))
-            if upd[0] == 'field' and upd[1][0] == 'bin':
-                upd = upd[1]
-            if not (upd[0] == 'bin' and upd[3] == ('int', 1) and upd[1].replace('WithOverflow', '') in ('Add', 'Sub')):
+            r = _chase(f, f.stmts(ub)[ui]['r'])
+            if r is None or r['k'] not in ('binop', 'cbinop') or r['op'].replace('WithOverflow', '') not in ('Add', 'Sub'):
                 continue
-            base = peel(upd[2])
-            name = f.local_name(v)
-            is_v = (base[0] == 'phi' and base[2] == name) or base == ('local', v) or (base[0] == 'var' and base[1] == v)
-            if not is_v:
+            if not (r['b']['k'] == 'const' and r['b'].get('int') == 1) or _chase_local(f, r['a']) != v:
                 continue
-            # the guard compares this variable
-            def mentions(t):
-                t = peel_c(t) if False else t
-                return any((x[0] == 'phi') or x == ('local', v) for x in walk(t))
             ob, oi = outside[0][1], outside[0][2]
             init = peel(f.expr_rvalue(f.stmts(ob)[oi]['r'], ob, oi))
-            lv, rv = mentions(l), mentions(r)
-            if lv == rv:
-                continue
-            sop, bound = (op, r) if lv else (SWAP[op], l)
-            out.append({'var': v, 'name': name, 'init': init, 'step': 1 if upd[1].startswith('Add') else -1, 'stay': (sop, bound),
+            if la == v:
+                sop, bound = op, f.expr_operand(cond['b'], gu, 'T')
+            else:
+                sop, bound = SWAP[op], f.expr_operand(cond['a'], gu, 'T')
+            out.append({'var': v, 'name': f.local_name(v), 'init': init, 'step': 1 if r['op'].startswith('Add') else -1, 'stay': (sop, canon(bound)),
                         'header': h, 'body': body, 'exits_only_at_guard': not other_exit, 'guard_block': gu})
+    return out
+
+
+# ---------------------------------------------------------------- success cases of a fallible function
+
+def success_cases(ctx, f):
+    """cases in which f returns a success value (Result::Ok / Option::Some), each as (path, atoms, payload tree).
+    Besides `Ok(v)`/`Some(v)` literals the data forms `cond.then_some(v)` are understood: the case then carries `cond` as an
+    additional atom (the condition is resolved along the path, so `a && b` lowered to control flow is followed)."""
+    out = []
+    for path, outcome, decs in fn_paths(ctx, f):
+        if outcome != 'return':
+            continue
+        atoms = [a for _, a in path_atoms(f, path, decs)]
+        r = path_ret(f, path)
+        if r is None:
+            continue
+        if r[0] == 'agg' and r[1].endswith(('Result::Ok', 'Option::Some')):
+            out.append((path, atoms, r[2][0]))
+            continue
+        if r[0] == 'call' and r[1].endswith('bool::then_some') and len(r[2]) == 2:
+            blk = r[3]
+            idx = max(i for i, b in enumerate(path) if b == blk)
+            t = f.term(blk)
+            cond = f.expr_operand_on_path(t['args'][0], path, idx, 'T')
+            c = peel(cond)
+            if c[0] == 'int':
+                if c[1]:
+                    out.append((path, atoms, r[2][1]))
+                continue
+            a = atom_of(c, ('eq', 1))
+            if a is not None:
+                out.append((path, atoms + [a], r[2][1]))
     return out
